@@ -88,4 +88,50 @@ func cmdGen(args []string) {
 	}
 }
 
-var generators = map[string]func(r *rand.Rand, enc *json.Encoder, cfg Cfg, id int, depth int){}
+var generators = map[string]func(r *rand.Rand, enc *json.Encoder, cfg Cfg, id int, depth int){
+	"catitem": genCatItem,
+}
+
+// genCatItem writes one random catalogue item for the history checks (C06, C11): a type without maps (histories compare
+// bytes exactly), its zero value and a random value.
+func genCatItem(r *rand.Rand, enc *json.Encoder, cfg Cfg, id int, depth int) {
+	o := gen.Opts{Null: cfg.Null, Named: true, Options: true, Proto: false, BQ: cfg.BQ}
+	gen.Pool = nil
+	var t *abs.TD
+	for {
+		t = gen.Type(r, o, depth, false)
+		if b := gen.Base(t); t.K == "ptr" || b.K == "null" || hasKind(t, "map", 6) {
+			continue
+		}
+		break
+	}
+	gt := abs.GoType(t)
+	z := reflect.New(gt)
+	v := reflect.New(gt)
+	gen.Fill(r, t, v.Elem(), 4)
+	if err := enc.Encode(M{"T": t, "vals": []any{abs.Project(t, z.Elem()), abs.Project(t, v.Elem())}, "cfg": "default"}); err != nil {
+		panic(err)
+	}
+}
+
+// hasKind reports whether the abstract type contains the kind anywhere (named types included).
+func hasKind(t *abs.TD, k string, fuel int) bool {
+	if t == nil || fuel == 0 {
+		return false
+	}
+	if t.K == k {
+		return true
+	}
+	if t.K == "ref" {
+		return hasKind(abs.Env()[t.N], k, fuel-1)
+	}
+	if hasKind(t.E, k, fuel-1) || hasKind(t.Key, k, fuel-1) || hasKind(t.Val, k, fuel-1) {
+		return true
+	}
+	for i := range t.F {
+		if hasKind(t.F[i].T, k, fuel-1) {
+			return true
+		}
+	}
+	return false
+}
